@@ -13,8 +13,8 @@ package sender
 //@   ensures  calls(Cb) == old(calls(Cb)) + owed(stream) + (received(s.Sink) - old(received(s.Sink))) - owed(result0)
 //@   ensures  result0 != nil ==> result0.Cb != nil
 //@   ensures  s.Logger == old(s.Logger) && s.ConnFactory == old(s.ConnFactory) && s.Sink == old(s.Sink)
-//@   recvsite assumes [sender.Stream] val.Cb != nil
-//@   recvsite assumes [bytes.Buffer] val != nil
+//@   recvsite assumes [sender.Stream] delivered ==> (val.Cb != nil)
+//@   recvsite assumes [bytes.Buffer] delivered ==> (val != nil)
 //@   loop 1 invariant param(s) != nil && conn != nil && param(s).Logger != nil && (stream != nil ==> stream.Cb != nil) && param(s).Sink == old(param(s).Sink)
 //@   loop 1 invariant calls(Cb) == old(calls(Cb)) + old(owed(stream)) + (received(param(s).Sink) - old(received(param(s).Sink))) - owed(stream)
 //@   loop 2 invariant param(s) != nil && conn != nil && param(s).Logger != nil && stream != nil && stream.Cb != nil && param(s).Sink == old(param(s).Sink)
@@ -24,7 +24,7 @@ package sender
 // cleanup closes the sink and answers every stream still queued in it with the context's error.
 //@ func (*Sender).cleanup
 //@   requires s != nil
-//@   recvsite assumes [sender.Stream] val.Cb != nil
+//@   recvsite assumes [sender.Stream] delivered ==> (val.Cb != nil)
 //@   ensures  calls(Cb) - old(calls(Cb)) == received(s.Sink) - old(received(s.Sink))
 //@   loop 1 invariant calls(Cb) - old(calls(Cb)) == received(s.Sink) - old(received(s.Sink)) && s.Sink == old(s.Sink)
 //@   modifies everything, calls(Cb), received
@@ -35,7 +35,7 @@ package sender
 // and for the streams still queued at shutdown (cleanup).
 //@ func (*Sender).Run
 //@   requires s != nil && s.Logger != nil && s.ConnFactory != nil
-//@   recvsite assumes [sender.Stream] val.Cb != nil
+//@   recvsite assumes [sender.Stream] delivered ==> (val.Cb != nil)
 //@   ensures  calls(Cb) - old(calls(Cb)) == received(s.Sink) - old(received(s.Sink))
 //@   loop 1 invariant s.Logger != nil && s.ConnFactory != nil && s.Sink == old(s.Sink) && (stream != nil ==> stream.Cb != nil)
 //@   loop 1 invariant calls(Cb) - old(calls(Cb)) == received(s.Sink) - old(received(s.Sink)) - owed(stream)
